@@ -11,6 +11,14 @@ TB = ("Trusted: Lean 4.33 kernel; axioms ⊆ {propext, Classical.choice, Quot.so
       "(constants/tables regenerated from /repo) and the differential correspondence stream; ")
 
 NOTES = {
+    "C10": {
+        "text": "Kernel-checked for every byte string, base address, element size/alignment and prefix width <= 16 bytes: unpack / unpack_mut / init never panic; a success has length <= capacity = "
+                "(buffer - header)/element size (0 and an empty data region for zero-sized elements), an aligned data region and every visible element inside the buffer; short, sloppy, misaligned or "
+                "over-long buffers are rejected; read-only and mutable opening are the same function of the bytes. The prefix-to-usize conversion is the code's (saturating after the fix).",
+        "design_ref": "§5 C10",
+        "note": TB + "bytemuck's try_from_bytes / try_cast_slice rules are transcribed into the model (castSlice) and validated by the stream; memory safety of the unsafe casts inside bytemuck is not modelled.",
+        "technique": "Lean 4 theorem (all buffers/addresses/type parameters, kernel-checked) + differential correspondence over 32 monomorphisations x 16 alignments",
+    },
     "C11": {
         "text": "Kernel-checked for every seed list (any count, literals of any length, all u8 parameters): packing succeeds iff no seed is uninitialised and the documented sizes total <= 32, "
                 "never panics, yields exactly the seeds back to back followed by zeros, and unpacking that returns the identical list; for every 32-byte array unpacking is total and a success "
